@@ -125,6 +125,9 @@ Definition observed_eqb (a b : observed) : bool :=
 
 (* id, fault source, context, "the marked closure ran off the calling goroutine", D, observation *)
 Definition c05_case := (N * leafsrc * cname * bool * N * observed)%type.
+(* the case files apply this function instead of writing tuples: elaboration is ten times faster *)
+Definition c05_mk (id : N) (l : leafsrc) (k : cname) (par : bool) (D : N) (o : observed) : c05_case :=
+  (id, l, k, par, D, o).
 Definition c05_id (c : c05_case) : N := match c with (id, _, _, _, _, _) => id end.
 
 Definition sched_of (par : bool) : sched := fun id => match id with O => par | _ => false end.
